@@ -1,6 +1,7 @@
 package main
 
 import (
+	"encoding/binary"
 	"bytes"
 	"errors"
 	"fmt"
@@ -292,7 +293,7 @@ func implW(f []string, o *oracleSink) string {
 				}
 				return errName(err)
 			case "w":
-				d0 := parseData(p[1])
+				d0 := loadBlob(p[1])
 				// io.Writer contract: Write must not retain p. One caller buffer is reused for every Write
 				// of the session and scribbled over as soon as Write has returned.
 				if cap(callerBuf) < len(d0) {
@@ -354,7 +355,7 @@ func implW(f []string, o *oracleSink) string {
 				tr = &frameTrack{clean: sink.failAt < 0, opts: o2}
 				return "-"
 			case "rf":
-				d := parseData(p[1])
+				d := loadBlob(p[1])
 				src := &scriptSrc{data: d, chunk: atoi(p[2]), failAt: atoi(p[3]), eofWithData: p[4] == "1"}
 				n, err := zw.ReadFrom(src)
 				if err != nil || int(n) != len(d) {
@@ -546,6 +547,11 @@ func implR(f []string, o *oracleSink) string {
 			}
 		}
 		if len(data) >= 4 && data[0] == 0x02 && data[1] == 0x21 && data[2] == 0x4c && data[3] == 0x18 {
+			// the Linux-kernel flavour ends with the total uncompressed size, which is not part of the
+			// format the specification describes: the frame in front of it is what must be valid
+			if cons == len(data) && cons >= 8 && binary.LittleEndian.Uint32(data[cons-4:]) == uint32(len(delivered)) && strings.HasPrefix(ref, "@") {
+				ref = fmt.Sprintf("%s#%d", ref[:strings.IndexByte(ref, '#')], cons-4)
+			}
 			o.ask("accept", "SL "+ref, fmt.Sprintf("ok legacy len=%d fnv=%d", len(delivered), fnv(delivered)))
 		} else if len(data) > 0 {
 			o.ask("accept", "SFC 0 "+ref, fmt.Sprintf("ok len=%d fnv=%d consumed=%d", len(delivered), fnv(delivered), cons))
@@ -578,18 +584,24 @@ func implR(f []string, o *oracleSink) string {
 		}
 	}
 	cons := fmt.Sprint(src.pos())
-	abandoned := false
+	abandoned, reused := false, false
 	for _, op := range f[6:] {
-		if strings.HasPrefix(op, "R:") || strings.HasPrefix(op, "A:") {
-			abandoned = true // a stream may have been dropped half-way: outside the property
+		if strings.HasPrefix(op, "A:") {
+			abandoned = true // a failed Apply leaves a stream half-way: outside the property
+		}
+		if strings.HasPrefix(op, "R:") {
+			reused = true
 		}
 	}
 	if !hung && !abandoned && (cleanEOF || sawErr) {
-		// the stream ended (io.EOF or an error was reported): no library goroutine may remain
+		// the (last) stream ended (io.EOF or an error was reported): no library goroutine may remain,
+		// those of a stream that Reset dropped half-way included (Reset stops them)
 		if l := leakCheck(gBase); l != "" {
 			notes = append(notes, l)
 		}
-		traceRequests(o, true)
+		if !reused {
+			traceRequests(o, true)
+		}
 	}
 	return fmt.Sprintf("%s ; consumed=%s ; %s", strings.Join(res, " "), cons, strings.Join(append(notes, "notes"), " "))
 }
